@@ -53,11 +53,9 @@ def run_unit(name, tier, seed):
     red = hist.reduced_alphabet(name)
     full = lib.content_model(name).names
     if tier == 'quick':
-        passes = [dict(kinds=KINDS, K=2, budget=800, fwd=(-1, 2), alphabet=red),
-                  dict(kinds=['ADD', 'DOTSET'], K=4 if len(red) <= 6 else 3, budget=2200, alphabet=red)]
+        passes = [dict(kinds_by_depth=lambda d: KINDS if d <= 2 else ['ADD', 'DOTSET'], D=8, budget=3000, fwd=(-1, 2), alphabet=red)]
     else:
-        passes = [dict(kinds=KINDS, K=3, budget=15000, fwd=(-2, 4), alphabet=full),
-                  dict(kinds=['ADD', 'DOTSET'], K=5 if len(full) <= 6 else 4 if len(full) <= 14 else 3, budget=25000, alphabet=full)]
+        passes = [dict(kinds_by_depth=lambda d: KINDS if d <= 3 else ['ADD', 'DOTSET'], D=10, budget=40000, fwd=(-2, 4), alphabet=full)]
     r = f1.multi(name, passes, judge, judge_concrete, per_step=per_step)
     keep = []
     for c in r['cands']:
@@ -88,7 +86,7 @@ def describe():
              'non-trivial = every history',
         functions=['xmlelement/xmlelement.py:XMLElement.add_child', 'XMLElement.__setattr__', 'xmlelement/xmlchildcontainer.py:XMLChildContainer.add_element',
                    'XMLChildContainer._update_requirements_in_path', 'XMLChildContainer.max_is_reached', 'XMLChildContainer.duplicate'],
-        bounds=dict(history_length='wide pass K=2 (3 thorough) with forward; deep pass ADD/DOTSET K=3..4 (3..5 thorough)',
+        bounds=dict(exploration='breadth-first over reachable states, depth <= 8 (10 thorough), path budget 3000 (40000) per class; forward adds and value assignments from states at depth <= 2 (3)',
                     oracle='unbounded word length (linear integer arithmetic)', outside='longer histories'),
         assumptions=['dead end is judged at the level of the schema (multiset containment), then confirmed on the real code by to_string and a bounded completion search (<= 2 further children)'],
         exhaustive_within_bounds=True)
